@@ -2,6 +2,7 @@
 // print (PropertyIOManipulator XML) -> LoadFromXML with the same names, order, attributes and trimmed values.
 // Outside the domain (skipped, counted): attribute values with tab/newline/CR and values with CR (only reachable through
 // character references; the XML parser normalises them on re-reading, VOTCA never sees the difference).
+#include <expat.h>
 #include <sys/mman.h>
 #include <unistd.h>
 
@@ -33,6 +34,16 @@ struct MemFile {
     if (fd >= 0) close(fd);
   }
 };
+// Property::LoadFromXML leaks its XML_Parser when it throws on a parse error (property.cc: the throw in the XML_Parse
+// loop skips XML_ParserFree; ~9 kB per rejected document, 4 GB after 4*10^5 fuzz inputs).  Leak detection is off in this
+// framework, so the target keeps its own memory bounded by filtering ill-formed documents with a parser it frees itself.
+bool well_formed(const char *d, size_t n) {
+  XML_Parser p = XML_ParserCreate(nullptr);
+  if (!p) return false;
+  bool ok = XML_Parse(p, d, int(n), 1) != XML_STATUS_ERROR;
+  XML_ParserFree(p);
+  return ok;
+}
 std::string trim(const std::string &s) {
   const char *ws = " \t\n\r\f\v";
   size_t a = s.find_first_not_of(ws);
@@ -85,6 +96,10 @@ bool same(const Property &a, const Property &b, std::string &why) {
 
 extern "C" int LLVMFuzzerTestOneInput(const uint8_t *data, size_t size) {
   static const bool known_esc = getenv("VV_KNOWN") && strstr(getenv("VV_KNOWN"), "PrintNodeXML/no-escaping");
+  if (!well_formed(reinterpret_cast<const char *>(data), size)) {
+    vvf::rejected();
+    return 0;
+  }
   Property first;
   try {
     MemFile f(reinterpret_cast<const char *>(data), size);
